@@ -81,7 +81,7 @@ impl<'g> Sampler<'g> {
             return;
         }
         let s: &str = match name {
-            "ANY" => *rng.pick(&["a", "b", "z", "é", " "]),
+            "ANY" => *rng.pick(&["a", "b", "z", "é", " ", "Ａ", "🎈"]),
             "SOI" | "EOI" | "DROP" => "",
             "PEEK" => {
                 let t = self.stack.last().cloned().unwrap_or_default();
